@@ -8,6 +8,7 @@ import Rmk.Spec.Apply
 import Rmk.Impl.Codec
 import Rmk.Impl.Misc
 import Rmk.Impl.Store
+import Rmk.Impl.StoreGuard
 import Rmk.Spec.Obj
 import Rmk.Impl.Virtual
 import Rmk.Impl.Heap
@@ -509,8 +510,10 @@ def runStore (t : Ty) (v : Val) (ops : List SCmd) (lazy : Bool := false) : Strin
   | some n0 =>
     let viewStr (o : Impl.VObj) : String :=
       hexOf (o.backing.root H) ++ ":" ++ hexO ((Impl.serTree H o.ty o.backing).map (·.1))
-    let rec go (k : Nat) (s : Impl.Store) (snaps : List (Ty × Node)) (ops : List SCmd)
+    let rec go (k : Nat) (g : Impl.GStore) (snaps : List (Ty × Node)) (ops : List SCmd)
         (acc : List String) : List String :=
+      -- (the guarded store: a write through a union value view of an option that is no longer selected is refused)
+      let s : Impl.Store := g.views
       match ops with
       | [] =>
         if lazy then
@@ -539,44 +542,44 @@ def runStore (t : Ty) (v : Val) (ops : List SCmd) (lazy : Bool := false) : Strin
               | some vo => toString (up (r + 1) r (costBound vo.ty o))
               | none => "-")
           | _ => "-"
-        let (s', snaps', status) : Impl.Store × List (Ty × Node) × String :=
+        let (g', snaps', status) : Impl.GStore × List (Ty × Node) × String :=
           match op with
           | .snap r =>
             match s[r]? with
-            | some o => (s, snaps ++ [(o.ty, o.backing)], "ok")
-            | none => (s, snaps, "err")
-          | .refused _ => (s, snaps, "err")
+            | some o => (g, snaps ++ [(o.ty, o.backing)], "ok")
+            | none => (g, snaps, "err")
+          | .refused _ => (g, snaps, "err")
           | .typed r i ft x =>
             -- assignment of a typed argument
             match s[r]? with
             | some o =>
               if typedArgOk o.ty i ft then
-                match Impl.step H s (.mutate r (.set i x)) with
+                match Impl.stepG H g (.mutate r (.set i x)) with
                 | some s2 => (s2, snaps, "ok")
-                | none => (s, snaps, "err")
-              else (s, snaps, "err")
-            | none => (s, snaps, "err")
+                | none => (g, snaps, "err")
+              else (g, snaps, "err")
+            | none => (g, snaps, "err")
           | .steps sops keepPrefix =>
             if keepPrefix then
-              let (s2, ok) := sops.foldl (fun (acc : Impl.Store × Bool) sop =>
+              let (s2, ok) := sops.foldl (fun (acc : Impl.GStore × Bool) sop =>
                 if !acc.2 then acc else
-                match Impl.step H acc.1 sop with
+                match Impl.stepG H acc.1 sop with
                 | some s3 => (s3, true)
-                | none => (acc.1, false)) (s, true)
+                | none => (acc.1, false)) (g, true)
               (s2, snaps, if ok then "ok" else "err")
             else
-            match sops.foldlM (fun st sop => Impl.step H st sop) s with
+            match sops.foldlM (fun st sop => Impl.stepG H st sop) g with
             | some s2 => (s2, snaps, "ok")
-            | none => (s, snaps, "err")
+            | none => (g, snaps, "err")
         let p := toString k
         let out := if lazy then [kv (p ++ ".i") status] else [
           kv (p ++ ".i") status,
           kv (p ++ ".bound") bound,
-          kv (p ++ ".views") (String.intercalate "," (s'.map viewStr)),
+          kv (p ++ ".views") (String.intercalate "," (g'.views.map viewStr)),
           kv (p ++ ".snaps") (String.intercalate "," (snaps'.map fun (q : Ty × Node) =>
             hexOf (q.2.root H) ++ ":" ++ hexO ((Impl.serTree H q.1 q.2).map (·.1))))]
-        go (k + 1) s' snaps' rest (out.reverse ++ acc)
-    join (go 0 [{ ty := t, backing := n0, hook := none }] [] ops [])
+        go (k + 1) g' snaps' rest (out.reverse ++ acc)
+    join (go 0 { views := [{ ty := t, backing := n0, hook := none }], sels := [none] } [] ops [])
 
 def readElem (t : Ty) (n : Node) (i : Nat) : Option Val := Impl.readElem H t n i
 def viewLen (t : Ty) (n : Node) : Option Nat := Impl.viewLen H t n
